@@ -245,6 +245,32 @@ DEGENERATE = [
 ]
 
 
+# starred targets in every position the parser accepts (the compiler proper rejects some of them: typing states of `*a, = x`)
+for _i, _t in enumerate(['*rest = items\nrest\n', '*a, b = *c, d = [1, 2]\na\nc\n', 'for *a in [[1]]:\n    a\n', '[a for *a in [[1]]]\n', 'with open("f") as *a:\n    a\n',
+                         '(*a), b = 1, 2\na\n', '*a.b = [1]\n', '*a[0] = [1]\n', '[*a] = [1]\na\n', 'a = [*b] = *c, = [1]\nc\n', 'for x, *self.r in []: pass\n',
+                         'def f(*, a): return a\nf\n', 'x = *a, *b\nx\n', 'print(*a, **b)\n', '*a: int = 1\n']):
+    DEGENERATE.append(('starred-%d' % _i, _t))
+
+# a class statement whose base expression evaluates to something that is not a class: every kind of value supp computes
+_PRELUDE = (
+    'import os, sys\n'
+    'class K(object):\n    attr = 1\n    def km(self):\n        self.kv = 1\n        return self\n'
+    'def func():\n    return 1\n'
+    'def cond_func():\n    if os:\n        r = 1\n    else:\n        r = "a"\n    return r\n'
+    'def class_func():\n    if os:\n        return K\n    return dict\n'
+    'try:\n    from collections import OrderedDict as Impl\nexcept ImportError:\n    Impl = dict\n'
+    'if sys:\n    Nested = Impl\nelse:\n    Nested = object\n'
+    'if os:\n    Deep = Nested\nelif sys:\n    Deep = K\nelse:\n    Deep = func\n'
+    'for Loop in [K, dict]:\n    pass\n'
+    'inst = K()\n'
+)
+_BASES = ['func', 'cond_func', 'class_func', 'class_func()', 'cond_func()', 'Impl', 'Nested', 'Deep', 'Loop', 'inst', 'inst.km', 'inst.km()', 'K.attr', 'K()', 'os', 'os.path',
+          'os.getcwd', 'os.getcwd()', 'lambda: 0', '1', '"s"', 'None', '[K]', '{}', '[q for q in ()]', 'K if os else dict', 'Nested if os else Deep', 'Undefined', 'K, Nested',
+          'Nested, Deep', 'type', 'type(K)', 'type("T", (), {})', 'len', 'super', 'property', 'sys.modules', '*[K]', 'metaclass=Deep', 'K, metaclass=cond_func']
+for _b in _BASES:
+    DEGENERATE.append(('base:' + _b, _PRELUDE + 'class C(%s):\n    own = 1\n    def m(self):\n        self.v = 1\n        self.v\n        self.km\nC().m\nC.own\nC().kv\nclass D(C): pass\nD().m().v\n' % _b))
+
+
 CYCLIC_PROJECTS = {
     'star-import-cycle': {'pa.py': 'from pb import *\nva = 1\n', 'pb.py': 'from pa import *\nvb = 1\n',
                           'x': 'from pa import *\nva\nvb\nimport pa\npa.vb\n'},
